@@ -740,4 +740,54 @@ def noBrk : List Simple → Bool
   | .brk _ :: _ => false
   | _ :: r => noBrk r
 
+/-! ## LICM over every statement kind (`loop_invariant_code_motion.rs:19-126`)
+
+One rule for IsPointer / Not / Binary / IndexedAccess / Cast / StructInit / ClosureInit: hoist iff every
+operand is loop-invariant (Binary additionally: not DIV/MOD); the defined name becomes loop-variant
+otherwise. LateInit declarations/assignments, calls, IfElse, SingleIf, Break, While are never hoisted;
+the names they define (late-init name, return collector, final-assignment names, break collector)
+become loop-variant. -/
+
+inductive LS where
+  /-- a value-defining statement: name, names it reads, `mayTrap` (Binary DIV/MOD) -/
+  | pure (x : Nat) (reads : List Nat) (mayTrap : Bool)
+  /-- never hoisted; defines these names (late init, call collector, final assignments, break collector) -/
+  | stay (defs : List Nat)
+  deriving Repr, DecidableEq
+
+def licmF : List LS → List Nat → List LS × List LS × List Nat
+  | [], variant => ([], [], variant)
+  | .pure x reads trap :: r, variant =>
+    if !trap && reads.all (fun v => !variant.contains v) then
+      let (h, k, v) := licmF r variant
+      (.pure x reads trap :: h, k, v)
+    else
+      let (h, k, v) := licmF r (x :: variant)
+      (h, .pure x reads trap :: k, v)
+  | .stay defs :: r, variant =>
+    let (h, k, v) := licmF r (defs ++ variant)
+    (h, .stay defs :: k, v)
+
+/-! CSE over every value kind it tracks (`BindedValue`: Binary, IndexedAccess, IsPointer, Not) -/
+
+inductive CKey where
+  | b (k : Key)
+  /-- IndexedAccess (kind 0, index), IsPointer (kind 1), Not (kind 2) of an operand -/
+  | u (kind : Nat) (a : Operand) (idx : Nat)
+  deriving DecidableEq, Repr
+
+inductive CS where
+  | bin (op : Op) (a b : Operand)
+  | un (kind : Nat) (a : Operand) (idx : Nat)
+  | eff
+  deriving DecidableEq, Repr
+
+def keysOfC : List CS → List CKey
+  | [] => []
+  | .bin op a b :: r => if op ≠ .div ∧ op ≠ .mod then .b (op, a, b) :: keysOfC r else keysOfC r
+  | .un k a i :: r => .u k a i :: keysOfC r
+  | .eff :: r => keysOfC r
+
+def cseCommonC (s1 s2 : List CS) : List CKey := (keysOfC s1).filter fun k => (keysOfC s2).contains k
+
 end SamVerif.Opt
